@@ -271,7 +271,13 @@ func c17Cover(w *core.W, j int) {
 					shape = "wrapping"
 				}
 				tests := append(append([]model.Name{}, names...), inZone(), inZone())
+				if !append(model.Name{make([]byte, 32)}, zone...).Valid() {
+					continue // the NSEC3 owner (32-octet hash label + zone) would exceed 255 octets
+				}
 				for _, x := range tests {
+					if !x.Valid() {
+						continue // not a domain name (over 255 octets): outside the property
+					}
 					hx := hash(x)
 					wantMatch := bytes.Equal(hx, ha)
 					var wantCover bool
